@@ -96,6 +96,62 @@ def literal_ops(n, r, c):
     return L
 
 
+NP_DTYPES = ["uint8", "uint16", "uint32", "uint64", "int8", "int16", "int32", "int64", "float16", "float32", "float64", "bool_"]
+
+
+def dtype_values(dt):
+    """interesting values of a NumPy scalar type: 0, 1, a small one, the extremes"""
+    t = getattr(np, dt)
+    if dt == "bool_":
+        return [t(False), t(True)]
+    if dt.startswith(("uint", "int")):
+        info = np.iinfo(t)
+        vals = [0, 1, 3, info.max] + ([info.min, -2] if info.min < 0 else [])
+        return [t(v) for v in vals]
+    info = np.finfo(t)
+    return [t(0.0), t(1.0), t(-0.5), t(1.5), t(info.max)]
+
+
+def numeric_ops(n, r, c):
+    """numeric operand kinds: Python int / float / bool, NumPy scalars of every dtype, 0-d arrays of them, and 1-d / 2-d
+    arrays of every dtype.  The operand's mathematical value is taken here, by float(), before any arithmetic."""
+    ops = []
+
+    def add(kind, obj, sx, shape=(), item=False):
+        val = np.asarray(obj, dtype=float) if shape else np.asarray(float(obj))
+        op = Op(kind, shape, (lambda obj=obj: obj), (lambda ids, sx=sx: sx) if sx else _unsupported, (lambda pt, val=val: val))
+        if item:
+            # a NumPy scalar on the LEFT of a scalar Expression: NumPy hands `self.item()` (a Python int / float / bool)
+            # to the reflected method, so the operand the constraint builder sees is that Python number, exactly
+            it = obj.item()
+            alt = None if isinstance(it, bool) else f"(int {it})" if isinstance(it, int) else f"(float {rat(it)})"
+            op.sexp_left_of_scalar = (lambda ids, alt=alt: alt) if alt else _unsupported
+        ops.append(op)
+
+    for v in (0, 1, 3, -2, 2 ** 40, -(2 ** 70)):
+        add("pyint", v, f"(int {rat(v)})")
+    for v in (0.0, 1.0, -0.5, 1e300):
+        add("pyfloat", v, f"(float {rat(v)})")
+    for v in (True, False):
+        add("pybool", v, None)                      # Constant(True): no S-expression (ser rejects bool constants); semantics only
+    for dt in NP_DTYPES:
+        for v in dtype_values(dt):
+            q = rat(float(v))
+            add("np:" + dt, v, f"(npf {q})" if dt == "float64" else f"(npi {q})", item=True)
+            add("a0:" + dt, np.array(v), f"(a0 {q})")
+        vals = dtype_values(dt)
+        t = getattr(np, dt)
+        row = [vals[i % len(vals)] for i in range(n)]
+        add("a1:" + dt, np.array(row, dtype=t), "(a1 (" + " ".join(rat(float(x)) for x in row) + "))", (n,))
+        grid = [[vals[(2 * i + j + 1) % len(vals)] for j in range(c)] for i in range(r)]
+        add("a2:" + dt, np.array(grid, dtype=t), "(a2 (" + " ".join("(" + " ".join(rat(float(x)) for x in g) + ")" for g in grid) + "))", (r, c))
+    return ops
+
+
+def _unsupported(ids):
+    raise Unsupported("no S-expression for this operand")
+
+
 def elems_of(o):
     """flat element list (Expression objects) of an optyx container, row-major"""
     from optyx.core import vectors as V
@@ -172,6 +228,9 @@ class World:
             self.ops.append(Op(kind, shape, (lambda o=o: o), (lambda ids, o=o: optyx_sexp(o, ids)),
                                (lambda pt, o=o, shape=shape: self.value(o, shape, pt))))
         self.ops += literal_ops(n, r, c)
+        # one representative per optyx receiver kind, to be paired with every numeric operand kind
+        self.partners = [self.ops[i] for i in (0, 1, 5, 8, 11, 12, 17)]
+        self.num_ops = numeric_ops(n, r, c)
         self.names = sorted({v.name for _, _, o in objs for e in elems_of(o) for v in self.vars_of(e)})
 
     @staticmethod
@@ -254,6 +313,12 @@ def semantic_check(rel, lop, rop, res, pt):
             got_v, got_s = c.violation(pt), c.is_satisfied(pt)
         except Exception as ex:  # noqa: BLE001
             return {"what": "violation()/is_satisfied() raised", "error": f"{type(ex).__name__}: {ex}"[:120], "index": i}
+        try:
+            got_e = c.evaluate(pt)
+        except Exception as ex:  # noqa: BLE001
+            return {"what": "evaluate() raised", "error": f"{type(ex).__name__}: {ex}"[:120], "index": i}
+        if abs(got_e) != abs(l - r):
+            return {"what": "constraint value is not the difference of the two sides", "index": i, "lhs": l, "rhs": r, "evaluate": got_e}
         if got_v != want_v or bool(got_s) != bool(want_s):
             return {"what": "constraint does not mean the written relation", "index": i, "lhs": l, "rhs": r,
                     "violation": got_v, "want_violation": want_v, "satisfied": bool(got_s), "want_satisfied": bool(want_s)}
@@ -264,7 +329,16 @@ def semantic_check(rel, lop, rop, res, pt):
     return None
 
 
-def scipy_check(rel, cs, pt_names, pt, rep):
+def operand_pairs(lop, rop, pt):
+    """[(left_i, right_i)] from the operands' own values (NumPy broadcasting), or None"""
+    try:
+        L, Rr = np.broadcast_arrays(lop.value(pt), rop.value(pt))
+    except (oracle.NotRegular, ValueError):
+        return None
+    return list(zip(L.reshape(-1).tolist(), Rr.reshape(-1).tolist()))
+
+
+def scipy_check(rel, cs, pt_names, pt, rep, lr=None):
     """build a Problem around the constraints, capture the dicts _build_solver_cache makes, probe them"""
     import optyx
     from optyx.solvers.scipy_solver import _build_solver_cache
@@ -311,6 +385,12 @@ def scipy_check(rel, cs, pt_names, pt, rep):
         dict_feasible = (f == 0) if d["type"] == "eq" else (f >= 0)
         if holds != dict_feasible:
             fails.append({"what": "SciPy feasibility differs from the relation", "index": i, "sense": c.sense, "fun": f, "value": val})
+        # ... and the relation is the one between the operands as written (their values taken by the harness)
+        if lr is not None and i < len(lr):
+            l, r = lr[i]
+            if dict_feasible != relation_holds(rel, l, r) or not oracle.close(abs(f), abs(l - r), 1e-9, 1e-12):
+                fails.append({"what": "SciPy constraint function does not express the relation between the operands as written",
+                              "index": i, "sense": c.sense, "fun": f, "lhs": l, "rhs": r})
         out.append((c, variables, f, j))
     return fails, out
 
@@ -512,7 +592,9 @@ def run(ctx) -> core.Report:
     thorough = ctx["tier"] == "thorough" or ctx["escalate"]
     rep = core.Report(rule="exhaustive operand-kind table (left kind × right kind × {<=, >=, .eq} × shape relations) on the real "
                            "operators for several sizes, then violation / is_satisfied / SciPy dicts of every constraint that was "
-                           "created, probed at seeded dyadic points; then whole problems (vectors of >= 11 elements, digit-bearing names, "
+                           "created, probed at seeded dyadic points; numeric operand kinds (Python int / float / bool, NumPy scalars and "
+                           "0-d / 1-d / 2-d arrays of every integer, unsigned, float and bool dtype at 0, 1 and the extremes) in both operand "
+                           "positions against their mathematical value; then whole problems (vectors of >= 11 elements, digit-bearing names, "
                            "constraints over strict subsets of the variables with unequal partials, linear and nonlinear) whose dicts are "
                            "captured at the scipy.optimize.minimize seam and checked against dual-number derivatives; non-trivial = distinct (operand pair, relation) cells that "
                            "produce at least one constraint")
@@ -528,18 +610,49 @@ def run(ctx) -> core.Report:
                 if rel == "eq" and lop.kind not in OPTYX_KINDS:
                     continue
                 cases.append((W, lop, rop, rel))
+        if (n, r, c) == shapes[0] or thorough:
+            for nop in W.num_ops:
+                for part in W.partners:
+                    for rel in ("le", "ge", "eq"):
+                        cases.append((W, part, nop, rel))
+                        if rel != "eq":
+                            cases.append((W, nop, part, rel))
 
     ids = Ids()
-    lines, metas = [], []
+    lines, metas, sem_only = [], [], []
+    rep.mismatch_cases = []
     for W, lop, rop, rel in cases:
         try:
-            line = f"cmp {rel} {lop.sexp(ids)} {rop.sexp(ids)}"
+            lsx = lop.sexp_left_of_scalar(ids) if hasattr(lop, "sexp_left_of_scalar") and rop.kind == "e" else lop.sexp(ids)
+            line = f"cmp {rel} {lsx} {rop.sexp(ids)}"
         except Unsupported as ex:
-            rep.skipped["unsupported:" + str(ex)] = rep.skipped.get("unsupported:" + str(ex), 0) + 1
+            rep.skipped["no-model-line:" + str(ex)] = rep.skipped.get("no-model-line:" + str(ex), 0) + 1
+            sem_only.append((W, lop, rop, rel))
             continue
         lines.append(line)
         metas.append((W, lop, rop, rel))
     n_cmp = len(lines)
+
+    # operands the syntax cannot express (Python bool): the meaning is still checked on the real constraints
+    from optyx.constraints import Constraint as _C
+    for W, lop, rop, rel in sem_only:
+        try:
+            res = do_compare(rel, lop.make(), rop.make())
+        except Exception:  # noqa: BLE001
+            continue
+        if not (isinstance(res, _C) or (isinstance(res, list) and res and all(isinstance(c, _C) for c in res))):
+            continue
+        for _k in range(n_points):
+            pt = {name: rng.randint(-16, 16) / 8 for name in W.names}
+            r_ = semantic_check(rel, lop, rop, res, pt)
+            if r_ not in (None, "skip"):
+                r_.update({"cell": f"{lop.kind}:{rop.kind}", "rel": rel, "left": lop.kind, "right": rop.kind, "point": pt})
+                rep.oracle_failures.append(r_)
+            lr = operand_pairs(lop, rop, pt)
+            fails, _p = scipy_check(rel, (res if isinstance(res, list) else [res])[:3], W.names, pt, rep, lr=lr)
+            for f in fails:
+                f.update({"cell": f"{lop.kind}:{rop.kind}", "rel": rel, "point": pt})
+                rep.oracle_failures.append(f)
 
     # real operators
     results = []
@@ -588,7 +701,7 @@ def run(ctx) -> core.Report:
             continue
         if not (isinstance(res, Constraint) or (isinstance(res, list) and res and all(isinstance(c, Constraint) for c in res))):
             continue
-        rep.nontrivial.add((W.n, W.r, W.c, lop.kind, lop.shape, rop.kind, rop.shape, rel, W.ops.index(lop), W.ops.index(rop)))
+        rep.nontrivial.add((W.n, W.r, W.c, lop.kind, lop.shape, rop.kind, rop.shape, rel, id(lop), id(rop)))
         cs = [res] if isinstance(res, Constraint) else res
         for k in range(n_points):
             pt = {name: rng.randint(-16, 16) / 8 for name in W.names}
@@ -609,7 +722,7 @@ def run(ctx) -> core.Report:
                 probe_lines.append(f"viol {sense} {e} {env_text(pt)} {store} 1/100000000")
                 probe_meta.append(("viol", c, pt, None))
             if k == 0:
-                fails, probed = scipy_check(rel, cs[:3], W.names, pt, rep)
+                fails, probed = scipy_check(rel, cs[:3], W.names, pt, rep, lr=operand_pairs(lop, rop, pt))
                 for f in fails:
                     f.update({"cell": cell, "rel": rel, "left": lop.sexp(Ids()), "right": rop.sexp(Ids()), "point": pt})
                     rep.oracle_failures.append(f)
@@ -648,6 +761,7 @@ def run(ctx) -> core.Report:
     for (W, lop, rop, rel), res, model in zip(metas, results, outs[:n_cmp]):
         impl = outcome_text(res)
         if impl != model:
+            rep.mismatch_cases.append((W, lop, rop, rel, res))
             rep.corr_mismatches.append({"cell": f"{lop.kind}{lop.shape}:{rop.kind}{rop.shape}", "rel": rel, "impl": impl[:300], "model": model[:300],
                                         "left": lop.sexp(Ids())[:200], "right": rop.sexp(Ids())[:200]})
         if len(rep.samples) < 8 and impl.startswith(("single", "many")) and len(impl) < 260 and rng.random() < 0.02:
@@ -692,6 +806,26 @@ def search(ctx, rep):
     rng = core.Rng(ctx["seed"] + 15485863)
     dummy = core.Report()
     from optyx.constraints import Constraint
+    # first: the very constraints whose structure differs from the model, judged by their meaning at points
+    for W, lop, rop, rel, res in getattr(rep, "mismatch_cases", [])[:1500]:
+        if not (isinstance(res, Constraint) or (isinstance(res, list) and res and all(isinstance(c, Constraint) for c in res))):
+            continue
+        if outcome_text(res) == "raise:outside-model":
+            continue
+        for _k in range(4):
+            pt = {name: rng.randint(-16, 16) / 8 for name in W.names}
+            r_ = semantic_check(rel, lop, rop, res, pt)
+            if r_ in (None, "skip"):
+                cs = [res] if isinstance(res, Constraint) else res
+                fails, _p = scipy_check(rel, cs[:3], W.names, pt, dummy, lr=operand_pairs(lop, rop, pt))
+                r_ = fails[0] if fails else None
+            if r_ not in (None, "skip"):
+                try:
+                    lt, rt = lop.sexp(Ids()), rop.sexp(Ids())
+                except Unsupported:
+                    lt, rt = lop.kind, rop.kind
+                r_.update({"rel": rel, "left": lt, "right": rt, "point": pt, "shape": [W.n, W.r, W.c]})
+                return r_
     for _ in range(150):
         fails, _p = solver_seam_check(gen_solver_problem(rng), rng, dummy, n_points=2)
         if fails:
@@ -747,8 +881,17 @@ def replay(payload) -> bool:
     rel = f["rel"]
     for n, r, c in cands:
         W = World(n, r, c)
-        for lop, rop in itertools.product(W.ops, W.ops):
-            if lop.sexp(Ids()) != f.get("left") or rop.sexp(Ids()) != f.get("right"):
+
+        def _sx(o):
+            try:
+                return o.sexp(Ids())
+            except Unsupported:
+                return o.kind
+        allops = W.ops + W.num_ops
+        for lop, rop in itertools.product(allops, allops):
+            if _sx(lop) != f.get("left") or _sx(rop) != f.get("right"):
+                continue
+            if "cell" in f and f["cell"] != f"{lop.kind}:{rop.kind}":
                 continue
             res = do_compare(rel, lop.make(), rop.make())
             pt = {k: float(v) for k, v in f["point"].items()}
